@@ -205,6 +205,18 @@ def c16(tier):
             for d in deltas:
                 res2, _a = _resolve(year, request, bump("w-2:0.box_2", d), "h%s" % sc["sid"])
                 add_pair("withheld", int(round(d * 100)), res2, {"input": "w-2:0.box_2", "delta": d})
+        # an increment that makes two copies carry exactly the same amount (aggregations must not care)
+        for box, kind in (("box_2", "withheld"), ("box_1", "wages")):
+            a0, a1 = given.get("w-2:0." + box), given.get("w-2:1." + box)
+            if a0 is not None and a1 is not None:
+                try:
+                    dlt = round(float(a1 or 0) - float(a0 or 0), 2)
+                except ValueError:
+                    continue
+                tgt = "w-2:0." + box if dlt > 0 else "w-2:1." + box
+                if abs(dlt) >= 0.01:
+                    res2, _a = _resolve(year, request, bump(tgt, abs(dlt)), "eq%s" % sc["sid"])
+                    add_pair(kind, int(round(abs(dlt) * 100)), res2, {"input": tgt, "delta": abs(dlt), "makes_copies_equal": True})
         for name in ("1040_sa.charitable_cash_check", "1040_sa.medical_dental_expenses", "1040_sa.other_taxes_amount",
                      "1040_sa.state_local_real_estate_taxes", "1040.charitable_contributions_std_ded", "1040_s1.educator_expenses",
                      "1040_s1.student_loan_interest", "1040_s1.alimony_paid"):
@@ -247,8 +259,10 @@ def _strip_inst(name):
     return f.split(":")[0] + "." + l
 
 
-def gate_summary(trace, res, gate_inputs, year, oid, limits):
+def gate_summary(trace, res, gate_inputs, year, oid, limits, answers=None):
+    """answers: what the user's inputs SAY (name -> text); when given, the declared answer counts, not what the line was handed"""
     reads = set()
+    truthy = ("true", "yes", "y", "1", "on")
     for ev in trace["events"]:
         if ev["ev"] != "attempt":
             continue
@@ -257,6 +271,8 @@ def gate_summary(trace, res, gate_inputs, year, oid, limits):
             if k == "in":
                 g = _strip_inst(name)
                 if g in gate_inputs:
+                    if answers is not None and name in answers and dg in ("True", "False"):
+                        dg = "True" if answers[name].strip().lower() in truthy else "False"
                     reads.add((g, dg, reader))
     return {"oid": oid, "year": year, "solved": bool(res.get("solved")) and not res["abort"],
             "reads": [{"g": g, "val": v, "reader": r} for (g, v, r) in sorted(reads)], "limits": limits}
@@ -350,6 +366,39 @@ def c09(tier):
                 nflip += 1
                 flipped_gates.add(_strip_inst(g))
                 add(tr, res, year, {"kind": variant, "gate": g, "value": text, "sid": sc["sid"], "year": year, "request": request, "given": dict(ans.given)}, ans.given)
+    # the user changes an answer on the SAME input store after a solve and solves again (a "what-if" session)
+    import runs as runs_mod
+    import habutax.forms as HF
+    nsame = 0
+    for sc in scs:
+        if not sc["res"].get("solved") or nsame >= (6 if tier == "quick" else 60):
+            continue
+        year, request, given = sc["year"], sc["request"], sc["given"]
+        cands = sorted(g for g in given if _strip_inst(g) in gate_inputs and sc["kinds"].get(g) == "BooleanInput")
+        if not cands:
+            continue
+        rng = random.Random("same-%s" % sc["sid"])
+        g = rng.choice(cands)
+        a = aff[_strip_inst(g)]
+        text = {"True": "yes", "False": "no"}.get(a, a)
+        p = scenarios.Profile(rng, year=year)
+        tr0, res0, solver0, ans0 = scenarios.solve_scenario(year, request, p, rng, overrides=dict(given), snap="none")
+        store = solver0._i
+        try:
+            store[g] = text
+        except Exception:      # noqa
+            continue
+        ans1 = scenarios.Answerer(p, rng, overrides=dict(given))
+        tr1, res1, solver1 = runs_mod.run_traced(HF.available_forms[year], None, request, (), user=ans1, mode="real", snap="none", store=store, max_events=30000)
+        answers = {}
+        for sec in store.config.sections():
+            for opt in store.config[sec]:
+                answers["%s.%s" % (sec, opt)] = store.config.get(sec, opt, raw=True)
+        oid = len(obs) + 1
+        obs.append(gate_summary(tr1, res1, gate_inputs, year, oid, limit_facts(year, answers, res1), answers=answers))
+        meta[oid] = {"kind": "same-store-flip", "gate": g, "value": text, "sid": sc["sid"], "year": year, "request": request, "given": answers}
+        nsame += 1
+        flipped_gates.add(_strip_inst(g))
     # amounts beyond an implemented limit
     for year in scenarios.YEARS:
         for kind in ("payers-int", "payers-div", "foreign", "hsa"):
@@ -403,7 +452,7 @@ def c09(tier):
            "rule": "base scenarios from the explorer; for every catalogued gate input that a base run supplied, the run repeated with that input affirmative; "
                    "limit scenarios (15 payers, foreign tax above the threshold); distinct = distinct gates flipped",
            "samples": [meta[len(obs)], {"reads": obs[0]["reads"][:4]}],
-           "catalogue_gates": len(cat), "gates_flipped": sorted(flipped_gates), "flipped_runs": nflip, "base_runs": len(scs),
+           "catalogue_gates": len(cat), "gates_flipped": sorted(flipped_gates), "flipped_runs": nflip, "same_store_flips": nsame, "base_runs": len(scs),
            "gates_never_read": sorted(gate_inputs - flipped_gates), "gate_like_inputs_missing_from_catalogue": fresh,
            "explanation": "TLC evaluates Gates.tla (solved => no affirmative gate read by a non-exempt reader, no exceeded limit) on the trace summary of every explored run"}
     return rep, "exploration", cov, ["the gate catalogue (data/gates.json) is frozen and reviewed; it was drafted by forced execution (harness/derive_gates.py)",
@@ -462,6 +511,12 @@ def c02(tier):
                     continue
                 op = e["op"]
                 args = [full(a) for a in e.get("args", [])]
+                if op == "addinst":
+                    # the same box of every copy of a payer form that takes part
+                    args = sorted(n for n in S if n.split(".")[0].split(":")[0] == e["inst"] and n.split(".", 1)[1] == e["box"])
+                    op = "add"
+                    if not args:
+                        continue
                 if op == "addprefix":
                     args = sorted(n for n in S if n.startswith("%s.%s" % (finst, e["prefix"])))
                     op = "add"
